@@ -51,6 +51,11 @@ func runC05(c *engine.Ctx, tier string) {
 	registryVerdict(c)
 	chunkCursor(c)
 	pluginVerdict(c)
+	// every proposal of a transaction is validated before any of them is committed
+	allProposalsGates(c, "C05.7", "b")
+	c.Al = proposalAliases(c.P)
+	// what was validated and what is stored agree after a rollback too
+	captureLoopAs(c, "C05.8")
 }
 
 // candidateDocument: C05.2 — provenance of the bytes given to the plugin.
@@ -278,8 +283,10 @@ func registryVerdict(c *engine.Ctx) {
 	}
 }
 
-func chunkCursor(c *engine.Ctx) {
-	o := c.Custom("C05.5", "cursor", "in the send loop: slice low bound = cursor, cursor' = slice high bound (len(data) for the open-ended tail), a bounded chunk is cut only under high bound <= len(data), loop condition cursor < len(data), and the slice is what is sent",
+func chunkCursor(c *engine.Ctx) { chunkCursorAs(c, "C05.5") }
+
+func chunkCursorAs(c *engine.Ctx, id string) {
+	o := c.Custom(id, "cursor", "in the send loop: slice low bound = cursor, cursor' = slice high bound (len(data) for the open-ended tail), a bounded chunk is cut only under high bound <= len(data), loop condition cursor < len(data), and the slice is what is sent",
 		"the plugin receives every byte of the document exactly once, whatever its size relative to the chunk size")
 	defer o.Done(2)
 	paths, err := c.A.PathsOpt(pkgRegistry, engine.PathOpts{Roots: []string{".ModelPluginInfo.Validate"}, NoInline: true})
